@@ -129,6 +129,10 @@ def _fn_of_json_name(unit, jname):
     for pre in ("lemma::", "spec::"):
         if pre + parts[-1] in unit.fn_lines:
             return pre + parts[-1]
+    # a trait default method instantiated at an implementor (R8): `Request::set_headers` is `MessageType::set_headers`
+    cands = [x for x in unit.exec_fns if x.split("::")[-1] == parts[-1]]
+    if len(cands) == 1:
+        return cands[0]
     return None
 
 
